@@ -1,5 +1,6 @@
 import ParryModel.C09.Theorems2
 import ParryModel.C09.Theorems4
+import ParryModel.C10.Lemmas
 /-!
 # C09 theorems, part 10: the remaining bounding spheres and the sphere algebra
 
@@ -134,6 +135,38 @@ theorem pointCloudSphere_contains_points (p0 : V3 K) (ps : List (V3 K)) (hsq : L
     ∀ q ∈ p0 :: ps, SMem (pointCloudSphere p0 ps) q := by
   intro q hq
   exact pcs_core sq _ (p0 :: ps) hsq q hq
+
+/-- the radius of `point_cloud_bounding_sphere` is non-negative -/
+theorem pointCloudSphere_radius_nonneg (p0 : V3 K) (ps : List (V3 K)) (hsq : LawfulSqrt sq) :
+    letI := fieldNum K sq
+    0 ≤ (pointCloudSphere p0 ps).radius := by
+  simp only [pointCloudSphere, fieldNum_sqrt]
+  refine hsq.nonneg _ ?_
+  exact (foldmax_spec _ _ 0).1
+
+/-- **ConvexPolyhedron** (`point_cloud_bounding_sphere(points)`, posed): every point of the convex hull of the points —
+the polyhedron as a set — lies in the sphere, for every unit-quaternion pose.  (A ball is convex: for `d = q - c`,
+`d·d = (q - c)·d ≤ max_v (v - c)·d ≤ (R² + d·d)/2`.) -/
+theorem polyhedron_sphere_contains (p0 : V3 K) (ps : List (V3 K)) (m : Iso3 K) (q : V3 K) (hsq : LawfulSqrt sq)
+    (hq : m.qi * m.qi + m.qj * m.qj + m.qk * m.qk + m.qw * m.qw = 1) :
+    letI := fieldNum K sq
+    hullMem3 (p0 :: ps) q → SMem ((pointCloudSphere p0 ps).transformBy m) (m.act q) := by
+  intro hh
+  rw [sphere_transformBy_contains sq _ m q hq]
+  have hpts := pointCloudSphere_contains_points sq p0 ps hsq
+  generalize (@pointCloudSphere K (fieldNum K sq) p0 ps) = S at hpts ⊢
+  have key := C10.hull3_le sq ⟨q.x - S.center.x, q.y - S.center.y, q.z - S.center.z⟩
+    ((q.x - S.center.x) * S.center.x + (q.y - S.center.y) * S.center.y + (q.z - S.center.z) * S.center.z
+      + (S.radius * S.radius + ((q.x - S.center.x) * (q.x - S.center.x) + (q.y - S.center.y) * (q.y - S.center.y)
+      + (q.z - S.center.z) * (q.z - S.center.z))) / 2)
+    (p0 :: ps) q hh (fun v hv => by
+      have h := hpts v hv
+      simp only [SMem] at h
+      simp only [V3.dot, V3.sub, V3.normSq]
+      nlinarith [sq_nonneg ((v.x - S.center.x) - (q.x - S.center.x)), sq_nonneg ((v.y - S.center.y) - (q.y - S.center.y)),
+        sq_nonneg ((v.z - S.center.z) - (q.z - S.center.z))])
+  simp only [V3.dot, V3.sub, V3.normSq, SMem] at key ⊢
+  nlinarith [key]
 
 /-- **Triangle**: every point of the posed triangle lies in `Triangle::bounding_sphere(pos)`, for every unit quaternion. -/
 theorem triangle_sphere_contains (a b c : V3 K) (m : Iso3 K) (p : V3 K) (hsq : LawfulSqrt sq)
